@@ -231,10 +231,28 @@ class Interp:
             return self.build(x['p'], depth + 1)
         raise HarnessError('bad operand %r' % (x,))
 
+    MAX_BUILD_LEN = 300
+
     def step(self, v, op, depth=0):
         self.steps += 1
         try:
-            return apply_op(v, op, lambda x: self.operand(x, v, depth))
+            if op.get('op') == 'replace':
+                # replacing with a long value (e.g. the receiver itself) squares the length at every step; the library
+                # also re-parses the text once per match, so such a step would take minutes without adding anything
+                new = self.operand(op['new'], v, depth)
+                try:
+                    grow = v.base_str.count(op['old']) * len(new) if op['old'] else (len(v) + 1) * len(new)
+                except TypeError:
+                    grow = 0
+                if grow > 4 * self.MAX_BUILD_LEN:
+                    raise Rejected('replacement too large for the builder')
+            r = apply_op(v, op, lambda x: self.operand(x, v, depth))
+            try:
+                if len(r) > self.MAX_BUILD_LEN:
+                    raise Rejected('value too long for the builder')
+            except TypeError:
+                pass
+            return r
         except HarnessError:
             raise
         except BuilderInvalid:
